@@ -175,6 +175,8 @@ fn enumerate_files(path: &PathBuf) -> Result<Vec<PathBuf>, Vec<Diagnostic>> {
                 Ok(entry) => Some(entry.path()),
                 Err(_) => None,
             })
+            // A sub-directory is not a source file of this directory
+            .filter(|path| !path.is_dir())
             .collect();
         return Ok(paths);
     }
